@@ -78,7 +78,7 @@ def run(ctx):
                 break
     inp = ctx.write_ndjson("behaviours.ndjson", behs)
     trace = ctx.tmp("c09_trace.ndjson")
-    gr = ctx.go_test("tsdb", ["c09_retention_test.go"], "^TestVerifC09Retention$", env={"VERIF_IN": inp, "VERIF_C09_TRACE": trace})
+    gr = ctx.go_test("tsdb", ["c09_retention_test.go"], "^TestVerifC09Retention$", env={"VERIF_IN": inp, "VERIF_C09_TRACE": trace}, timeout="60m")
     ctx.absorb(gr, label="C09 replay")
     ntr = sum(1 for _ in open(trace)) if os.path.exists(trace) else 0
     if ntr:
